@@ -23,7 +23,7 @@ Definition callee_eq_dec : forall a b : callee, {a = b} + {a <> b}. Proof. decid
 Definition action_eq_dec : forall a b : action, {a = b} + {a <> b}.
 Proof.
   decide equality; try apply nty_eq_dec; try apply cst_eq_dec; try apply ikind_eq_dec; try apply Bool.bool_dec;
-    try apply pfn_eq_dec; try apply Z.eq_dec; try apply rsrc_eq_dec; try apply callee_eq_dec; try apply bstr_eq_dec.
+    try apply pfn_eq_dec; try apply Z.eq_dec; try apply N.eq_dec; try apply rsrc_eq_dec; try apply callee_eq_dec; try apply bstr_eq_dec.
 Defined.
 
 Definition action_eqb (a b : action) : bool := if action_eq_dec a b then true else false.
@@ -207,7 +207,7 @@ Definition expected_parsers : list (bstr * parser) :=
    ("stringToInt64", PsStrconv "ParseInt" 10 true); ("stringToUint64", PsStrconv "ParseUint" 10 true);
    ("stringToFloat32", PsFloat 32); ("stringToFloat64", PsFloat 64);
    ("stringToComplex64", PsComplex 64); ("stringToComplex128", PsComplex 128);
-   ("stringToBigInt", PsBig "Int" true); ("stringToBigFloat", PsBig "Float" false); ("stringToBigRat", PsBig "Rat" false)].
+   ("stringToBigInt", PsBig "Int" true); ("stringToBigFloat", PsBig "Float" false); ("stringToBigRat", PsBigGuarded "Rat" max_text_exponent)].
 
 Theorem parsers_match_model : gen_dec_parsers = expected_parsers.
 Proof. vm_compute. reflexivity. Qed.
